@@ -431,10 +431,13 @@ func (w *World) oracleC17Liveness() {
 	}
 }
 
-// liveUser: another, living container legitimately uses the same mapping.
+// liveUser: the installed rule is that of another sandbox which the runtime does not report dead and which was given
+// the very same mapping (same pod IP and a re-used host port): set up, or with a failed DEL that kubelet still has to
+// retry. Rule text and chain name do not depend on the sandbox, so the rule cannot be told apart from the dead
+// sandbox's; it is the living sandbox's to remove (by its DEL), not the collector's.
 func (w *World) liveUser(m Mapping, not *Container) bool {
 	for _, c := range w.conts {
-		if c == not || c.Phase != "up" || w.truthDead(c.ID) {
+		if c == not || (c.Phase != "up" && c.Phase != "delfailed") || w.truthDead(c.ID) {
 			continue
 		}
 		for _, cm := range c.Mappings {
